@@ -104,7 +104,12 @@ func runC05() {
 	interpgen.Matrix(func(p *interpgen.Program) { res := emit(p); refCheck(p, res) }, stride)
 	interpgen.BigNumSweep(func(p *interpgen.Program) { emit(p) })
 	interpgen.ArithEdges(func(p *interpgen.Program) { emit(p) }, c.Thorough())
-	interpgen.DeepStacks(func(p *interpgen.Program) { emit(p) })
+	longNumbers()
+	// deep stacks: all (k, n) when thorough; quick keeps every k up to n = 65 and a reduced set of k beyond (these
+	// programs cost n*(k+n) on both sides and were two thirds of the harness's running time)
+	interpgen.DeepStacksSel(func(p *interpgen.Program) { emit(p) }, func(k, n int) bool {
+		return c.Thorough() || n <= 65 || n <= 129 && (k == 1 || k == 33) || k == 1 && n == 257
+	})
 	interpgen.Limits(func(p *interpgen.Program) { emit(p) }, c.Thorough())
 	interpgen.ScriptBoundary(func(p *interpgen.Program) { emit(p) })
 	numberLengthBoundary()
@@ -168,7 +173,7 @@ func runC05() {
 	c.Stats.Extra["node_vectors_skipped_signature_ops"] = skipped
 	c.Stats.Extra["node_vectors_used"] = used
 	c.Stats.Extra["node_vectors_impl_agrees"] = agree
-	c.Stats.Rule = "targeted families: big-number operand sweep (index/position/size/count opcodes x numbers around 2^31, 2^32, 2^63, 2^64, 2^72 and their negatives), programs sitting on every pre-Genesis limit (op count with executed and with skipped opcodes, stack depth incl. alt stack, element size via push/CAT/NUM2BIN, script size, number length) in both eras, ordered pairs of 42 value-producing snippets in one execution (same opcode twice and hash x hash always, a quarter of the rest per seed), 1120 script-boundary programs (what the unlocking script leaves on the alt stack / in conditionals when it ends normally or with a top-level OP_RETURN, zero-length scripts), 1500 flow-control programs (IF/NOTIF/ELSE/ENDIF/RETURN/VERIF/alt-stack alphabet split between unlocking and locking script); then: opcode x edge-operand matrix (31 operands; all unary opcodes and all shift counts 0..8n+1 for n in {0,1,2,3,8} always; binary/ternary combinations every 131st in quick, every 7th in thorough; 8 flag sets over both eras), grammar-generated programs over the full opcode alphabet with nested IF/NOTIF/ELSE/ENDIF, OP_RETURN placement, tx contexts for CLTV/CSV, P2SH pairs, and the signature-free node vectors of script_tests.json (evaluated on the model AND compared with the node's expected verdict). distinct = distinct (scripts, flags, context); non-trivial = at least one instruction completed"
+	c.Stats.Rule = "targeted families: long number operands (16 .. 8193 bytes quick, .. 65537 thorough: the lengths at which 8*(len-1), 8*len and len pass 2^7, 2^8, 2^15, 2^16; 11 operand shapes of both signs, minimal and padded; 30 number-reading opcodes; model up to 129/257 bytes, Go-level math/big reference on all), big-number operand sweep (index/position/size/count opcodes x numbers around 2^31, 2^32, 2^63, 2^64, 2^72 and their negatives), programs sitting on every pre-Genesis limit (op count with executed and with skipped opcodes, stack depth incl. alt stack, element size via push/CAT/NUM2BIN, script size, number length) in both eras, ordered pairs of 42 value-producing snippets in one execution (same opcode twice and hash x hash always, a quarter of the rest per seed), 1120 script-boundary programs (what the unlocking script leaves on the alt stack / in conditionals when it ends normally or with a top-level OP_RETURN, zero-length scripts), 1500 flow-control programs (IF/NOTIF/ELSE/ENDIF/RETURN/VERIF/alt-stack alphabet split between unlocking and locking script); then: opcode x edge-operand matrix (31 operands; all unary opcodes and all shift counts 0..8n+1 for n in {0,1,2,3,8} always; binary/ternary combinations every 131st in quick, every 7th in thorough; 8 flag sets over both eras), grammar-generated programs over the full opcode alphabet with nested IF/NOTIF/ELSE/ENDIF, OP_RETURN placement, tx contexts for CLTV/CSV, P2SH pairs, and the signature-free node vectors of script_tests.json (evaluated on the model AND compared with the node's expected verdict). distinct = distinct (scripts, flags, context); non-trivial = at least one instruction completed"
 }
 
 // opcode arity table for the frame check: how many items of the data stack an opcode may touch
